@@ -89,12 +89,21 @@ callee('m:isPrimitive', args=[], returns=True, ensures=['result == 0 or result =
 callee('m:addSource', args=['source'], modifies=['f:source'], raises='self.source != None',
        ensures=['self.source == source', 'forall(lambda w: implies(w != self, w.source == old(w.source)))'])
 callee('m:addSink', args=['sink'], modifies=['el:sinks', 'len:sinks'])
+callee('m:isPrimitive', args=[], returns=True, ensures=['(result != 0) == primitive(self)'])
 hfunc(B, 'OutPort.__init__', ['self', 'parent', 'name', 'wire'], props=('C11',), uses=['m:isPrimitive', 'm:addSource'],
       modifies=['f:name', 'f:parent', 'f:wire', 'f:source'],
-      raises_only_when='wire.source != None', raises_ensures=[_SRC_UNCHANGED],
+      # the call that would give an (ordinary) wire a second driver raises -- exactly then -- and leaves the first driver in place
+      raises_when='primitive(parent) and wire.source != None', raises_ensures=[_SRC_UNCHANGED],
       ensures=['self.wire == wire and self.parent == parent',
                'forall(lambda w: implies(w != wire, w.source == old(w.source)))',
-               'wire.source == self or wire.source == old(wire.source)'])
+               'implies(primitive(parent), wire.source == self)', 'implies(not primitive(parent), wire.source == old(wire.source))'])
+# an in/out port of a primitive drives its wire too (stated for an ordinary Wire: Wire.addSource = setSource)
+hfunc(B, 'InOutPort.__init__', ['self', 'parent', 'name', 'wire'], props=('C11',), uses=['m:isPrimitive', 'm:addSource', 'm:addSink'],
+      modifies=['f:name', 'f:parent', 'f:wire', 'f:source', 'el:sinks', 'len:sinks'],
+      raises_when='primitive(parent) and wire.source != None', raises_ensures=[_SRC_UNCHANGED],
+      ensures=['self.wire == wire and self.parent == parent',
+               'forall(lambda w: implies(w != wire, w.source == old(w.source)))',
+               'implies(primitive(parent), wire.source == self)', 'implies(not primitive(parent), wire.source == old(wire.source))'])
 hfunc(B, 'InPort.__init__', ['self', 'parent', 'name', 'wire'], props=('C11',), uses=['m:isPrimitive', 'm:addSink'],
       modifies=['f:name', 'f:parent', 'f:wire', 'el:sinks', 'len:sinks'],
       ensures=['self.wire == wire and self.parent == parent', _SRC_UNCHANGED])
